@@ -84,13 +84,16 @@ func (s *Server) serveDiscovery(req *http.Request) *http.Response {
 	sort.SliceStable(rs, func(i, j int) bool { return rs[i].Resource < rs[j].Resource })
 	list := []interface{}{}
 	for _, r := range rs {
-		list = append(list, map[string]interface{}{
+		main := map[string]interface{}{
 			"name":         r.Resource,
 			"singularName": strings.ToLower(r.Kind),
 			"namespaced":   r.Namespaced,
 			"kind":         r.Kind,
 			"verbs":        resourceVerbs,
-		})
+		}
+		if !s.SubresourcesFirst {
+			list = append(list, main)
+		}
 		if r.HasStatus {
 			list = append(list, map[string]interface{}{
 				"name":         r.Resource + "/status",
@@ -99,6 +102,9 @@ func (s *Server) serveDiscovery(req *http.Request) *http.Response {
 				"kind":         r.Kind,
 				"verbs":        statusVerbs,
 			})
+		}
+		if s.SubresourcesFirst {
+			list = append(list, main)
 		}
 	}
 	return jsonResponse(req, 200, map[string]interface{}{
